@@ -48,6 +48,15 @@ Proof.
   destruct ncm; vm_compute; reflexivity.
 Qed.
 
+Lemma unknown_cost_secp lens ncm m : 1 <= m ->
+  unknown_cost [0x13; 0xd6; 0x1f; 0x00] lens ncm m = Ok SECP256K1_VERIFY_COST /\
+  unknown_cost [0x1c; 0x3a; 0x8f; 0x00] lens ncm m = Ok SECP256R1_VERIFY_COST.
+Proof. intros H. split; [exact (unknown_cost_secp_k1 lens ncm m H)|exact (unknown_cost_secp_r1 lens ncm m H)]. Qed.
+
+Lemma secp_ok_value cost pk_ok sig_ok verify f a m r :
+  secp_verify cost pk_ok sig_ok verify f a m = Ok r -> cost <= m /\ r = (cost, nil_s).
+Proof. intros H. apply wrap_secp_ok in H. destruct H as (H1 & H2 & _). split; assumption. Qed.
+
 (* a successful secp call and the unknown-operator rule on the same opcode and arguments: the
    same cost, the same (nil) value *)
 Lemma secp_as_unknown cost pk_ok sig_ok verify op f a m r :
